@@ -200,6 +200,8 @@ def run_e2e(ctx):
             ctx.case(key=("c", p, skip, code), nontrivial=True,
                      cls=f"e2e:close-reason:skip={int(skip)}:wf={int(wf)}:code={'1xxx' if code < 3000 else '3xxx-4xxx'}")
             inp = {"op": "close-reason", "reason": p.hex(), "skip": skip, "code": code}
+            if skip and obs != ("ret", 8):
+                ctx.violate("skip-passthrough", "close-reason-judged-although-validation-off", inp, "close frame accepted", str(obs), size=len(p))
             if not skip and wf and obs != ("ret", 8):
                 ctx.violate("close-reason-iff-wellformed", "well-formed-rejected", inp, "close frame accepted", str(obs), size=len(p))
             if not skip and not wf and obs[0] == "ret":
